@@ -51,6 +51,13 @@ checks = {
  "C13": dict(cat="model_checking", ref="§8 C13", technique="symbolic execution of Lex (coroutine) + Parse over symbolic ASCII bytes and of the declaration/rule parser over symbolic token kinds, with unwinding assertions; unwinding failures confirmed by running the real CLI under a deadline",
    text="Termination as an unwinding assertion: every loop of the real lexer and grammar-file parser is bounded (300) while the input is seed + L unconstrained ASCII bytes, or a stream of N tokens of any kind followed by the end of the stream. A path that exceeds the bound is rendered to a file and the real CLI is run on it under a 10 s deadline; only a real hang is reported.",
    note="Trusted base: gosym incl. its coroutine model of the lexer goroutine and ASCII models of utf8/unicode; bounded suffix lengths; generation after a successful Parse is outside (covered for corpus grammars by other checks)."),
+
+ "C12": dict(cat="model_checking", ref="§8 C12", technique="symbolic execution of CalculateEpsilonClosure/CalculateCanTerminate on symbolic grammars (guarded pointers) against bit-mask least fixpoints; symbolic execution of the visitors + BuildLALR1 on ASTs with solver-chosen symbols",
+   text="Both fixpoints run on grammars whose every symbol is a solver choice and are compared with reference least fixpoints; the accept/refuse verdict of the real visitors + BuildLALR1 is compared, for every small rule set over {tokens, defined/undefined/declared-only/undeclared names}, with the statement's criterion (undefined symbol or unproductive nonterminal).",
+   note="Trusted base: gosym (guarded choice values for pointers), Z3, the reference fixpoints in the harnesses. Bounded grammar shapes (R rules, rhs length) as listed in the evidence."),
+ "C14": dict(cat="model_checking", ref="§8 C14", technique="symbolic execution of the whole generation through TemplateGenFromString/TsGenFromString with the iteration order of one solver-chosen map-range instance symbolic (schedule = map order); differences confirmed by repeated native runs",
+   text="Go's randomised map order is made a solver variable: the whole generation runs in the engine once in insertion order and once with one dynamic map-iteration instance (chosen by the solver among all instances of the run) in an arbitrary order; the data handed to the template / written to the file must be identical. Covers every map-range instance of the run, one deviation at a time.",
+   note="Trusted base: gosym, event-recorder models of os.Create/WriteString/Close and template.Execute, native regexp on concrete strings. Simultaneous deviations at two instances and non-map sources of nondeterminism are outside the claim."),
 }
 
 na = {
